@@ -2,8 +2,10 @@ package main
 
 import (
 	"fmt"
+	"github.com/relex/slog-agent/util"
 	"math/rand"
 	"regexp"
+	"sort"
 	"strings"
 	"time"
 
@@ -18,6 +20,7 @@ type timeComp struct {
 	tf      base.LogTransform
 	schema  base.LogSchema
 	counter btest.LookupStubCustomerCounterFunc
+	backbuf []byte // stands for the pooled backing buffer of the records
 }
 
 func init() { register("time", func() Component { return newTimeComp() }) }
@@ -42,7 +45,13 @@ func (t *timeComp) one(value []byte) (res string) {
 		}
 	}()
 	before, _ := t.counter("timeError")
-	rec := t.schema.NewTestRecord2(fallbackTime, base.LogFields{string(value)})
+	// the field aliases a reused backing buffer, as the fields of a pooled record do (base.LogAllocator.NewRecord for
+	// records above defs.InputLogMinRecordBytesToPool): the previous value is overwritten in place
+	if cap(t.backbuf) < len(value)+1 {
+		t.backbuf = make([]byte, 0, 2*len(value)+64)
+	}
+	t.backbuf = append(t.backbuf[:0], value...)
+	rec := t.schema.NewTestRecord2(fallbackTime, base.LogFields{util.StringFromBytes(t.backbuf)})
 	rec.RawLength = len(value)
 	t.tf.Transform(rec)
 	after, _ := t.counter("timeError")
@@ -53,6 +62,22 @@ func (t *timeComp) Impl(c Case) []string {
 	fresh := newTimeComp() // one transform instance per case, so that a case replays exactly
 	out := make([]string, len(c.Ops))
 	for i, o := range c.Ops {
+		if o.Name == "time zonealias" && len(o.Ints) == 1 && len(o.Bytes) == 2 {
+			// where a cached value lands in a hash table differs from instance to instance (per-map seed): run many instances
+			seen := map[string]int{}
+			for k := int64(0); k < o.Ints[0]; k++ {
+				inst := newTimeComp()
+				inst.one(o.Bytes[0])
+				seen[inst.one(o.Bytes[1])]++
+			}
+			var rs []string
+			for r := range seen {
+				rs = append(rs, r)
+			}
+			sort.Strings(rs)
+			out[i] = strings.Join(rs, "|")
+			continue
+		}
 		out[i] = fresh.one(o.Bytes[0])
 	}
 	return out
@@ -70,6 +95,12 @@ func (t *timeComp) Oracle(c Case, impl []string) string {
 	for i, o := range c.Ops {
 		v := o.Bytes[0]
 		got := impl[i]
+		if o.Name == "time zonealias" {
+			v = o.Bytes[1]
+			if strings.Contains(got, "|") {
+				return fmt.Sprintf("timestamp %q parsed after %q in the same backing buffer: fresh transform instances disagree (%s): a value depends on the record before it", v, o.Bytes[0], got)
+			}
+		}
 		if strings.HasPrefix(got, "panic") {
 			return fmt.Sprintf("parsing %q panics: %s", v, got)
 		}
@@ -224,6 +255,30 @@ func (t *timeComp) Generate(rng *rand.Rand, n int, emit func(Case)) {
 			ops = append(ops, Op{Name: "time xform", Bytes: [][]byte{[]byte(v)}})
 		}
 		emit(Case{Ops: ops, Tag: "sequence"})
+	}
+	// records of one layout from senders in different zones through one transform instance and one backing buffer
+	zones := [][]string{{"+03:00", "+05:30", "-08:00", "+00:00", "-03:30"}, {"+0300", "-0530", "+1245"}, {"Z"}}
+	for i := 0; i < n/40+12; i++ {
+		var ops []Op
+		l := 2 + rng.Intn(5)
+		zs := zones[rng.Intn(2)]
+		frac := []string{"", ".5", ".123456"}[rng.Intn(3)]
+		for j := 0; j < l; j++ {
+			z := zs[rng.Intn(len(zs))]
+			if rng.Intn(6) == 0 {
+				z = zones[rng.Intn(3)][0]
+			}
+			v := fmt.Sprintf("2019-08-15T%02d:50:46%s%s", rng.Intn(24), frac, z)
+			ops = append(ops, Op{Name: "time xform", Bytes: [][]byte{[]byte(v)}})
+		}
+		emit(Case{Ops: ops, Tag: "zone-sequence"})
+	}
+	for i := 0; i < 2+n/4000; i++ {
+		za, zb := zones[0][rng.Intn(5)], zones[0][rng.Intn(5)]
+		for zb == za {
+			zb = zones[0][rng.Intn(5)]
+		}
+		emit(Case{Ops: []Op{{Name: "time zonealias", Ints: []int64{12000}, Bytes: [][]byte{[]byte("2019-08-15T15:50:46" + za), []byte("2019-08-15T15:50:46" + zb)}}}, Tag: "zone-alias"})
 	}
 	for i := 0; i < n; i++ {
 		switch i % 4 {
